@@ -291,9 +291,12 @@ where
         if r.is_ok() {
             acc.bad("C10", "setup", "add_signal(SIGKILL) did not panic".to_string());
         }
+        // should the documented no-op go as far as a new registration, a delivery arrives the moment it is published
+        director::set_rule(site::REG_DONE, director::RuleSpec { mode: director::mode::RAISE, class_mask: class::MAIN, nth: 1, arg: sig as usize, ..Default::default() });
         if h.add_signal(sig).is_err() {
             acc.bad("C10", "setup", "re-adding a watched signal failed".to_string());
         }
+        director::clear_rules();
         director::lib_exit();
     }
     let sh = Arc::new(Shared {
@@ -408,6 +411,13 @@ where
     if !run_cmd(1, &mut served) {
         acc.inconclusive = Some("consumer did not answer".into());
         return;
+    }
+    {
+        let (d0, y0) = (DELIV[sig as usize].load(Ordering::SeqCst), YIELDS[sig as usize].load(Ordering::SeqCst));
+        if ename != "SignalOnly" && y0 != d0 {
+            acc.bad("C10", "record-count", format!("{}: {} records for {} deliveries that arrived while a watched signal was being added again (a documented no-op)", ename, y0, d0));
+            return;
+        }
     }
     let presets: &[u64] = if dual { &[1, 2] } else { &[0, 1, 2] };
     let scan_cmd = if dual { 3 } else { 1 };
